@@ -611,6 +611,7 @@ def build_robot(layout, H, opts):
         cn, _, hook = craise.partition(".")
         setattr({"c1": CompA}[cn], hook, [].pop)
         hooks[cn].discard(hook)
+        H.silent = {craise}
     return Robot, comps, hooks
 
 
